@@ -78,6 +78,8 @@ func TestC04(t *testing.T) {
 		{"toggled-lookups", &tch.Config{Links: links, Lookups: lookups, Streams: true, Tick: true}, 4, 6},
 		// lookups whose directives exist before the controller's transport is constructed
 		{"early-lookups", &tch.Config{Links: links, Lookups: lookups, StaticLookups: true, EarlyLookups: true}, 4, 6},
+		// the controller has no configured peer id: it adopts the identity of the peer on the bus
+		{"standing-lookups/no-configured-peer-id", &tch.Config{Links: links, Lookups: lookups, StaticLookups: true, Streams: true, AnyPeer: true}, 4, 6},
 	}
 	unconfirmed := 0
 	for _, sc := range scens {
